@@ -14,7 +14,7 @@ import z3
 
 from .repo import Repo, Module, Unsupported, source_hash, strip_docstring
 from .values import (V, Num, Bool, Str, NoneV, NONE, Opt, Tup, Lst, Dct, Obj, Opq, Fn, truth, eq, fresh_name,
-                     str_distinct_axioms, opaque_sort, StrSort)
+                     str_distinct_axioms, theory_axioms, opaque_sort, StrSort)
 from .symex import Exec, Path, Outcome, bind_arguments, is_assumed
 from .sym import SymBuilder
 
@@ -62,7 +62,7 @@ class Obligation:
 
     def smt2(self):
         from .smt import to_smt2
-        return to_smt2(self.assertions + str_distinct_axioms())
+        return to_smt2(self.assertions + theory_axioms(self.assertions))
 
 
 class Verifier:
